@@ -55,4 +55,16 @@ C02_ReplicasFollow(H, HA, master) ==
 
 \* every acknowledged transaction is on the master
 C02_NoAckedLoss(H, master, acked) == acked \subseteq H[master].exec \cup H[master].pend
+
+(***************************************************************************)
+(* C04  (H: ground truth incl. reach, sss, ssm, wsc; HA: HA hosts;         *)
+(*       A: published active list as a set; w: configured count)          *)
+(***************************************************************************)
+\* (a) every reachable HA replica with semi-sync acknowledgement enabled is listed
+C04a_AckersListed(H, HA, master, A) ==
+    \A r \in HA \ {master} : (H[r].reach /\ H[r].sss) => r \in A
+\* (b) the master waits for at least the number of acks implied by the list
+C04b_WaitCountCoversList(H, master, A, w) ==
+    Required(Cardinality(A), w) > 0 => (H[master].ssm /\ H[master].wsc >= Required(Cardinality(A), w))
+C04_AB(H, HA, master, A, w) == C04a_AckersListed(H, HA, master, A) /\ C04b_WaitCountCoversList(H, master, A, w)
 =============================================================================
